@@ -162,6 +162,8 @@ func c03(c *Ctx) {
 	enc := p.PlainCalls("ltx.(*Encoder).EncodePage")
 	pgnos := "{builtin.append(@@)|make([]uint32, 0)}[@@]"
 	c.Guarded("pages/lock-page-skipped", cw, enc, gs(GP("(ltx.LockPgno(p0.pageSize) == "+pgnos+")", false)), 1, "the lock page is never encoded", "")
+	c.Guarded("pages/within-commit", cw, p.CallWhere("builtin.append", `make\(\[\]uint32, 0\)`), gs(GP("("+bto+"#1 < rangekey("+bto+"#0))", false)), 1,
+		"a page of the transaction enters the page list only if pgno <= commit (the size in the commit frame)", "frames for pages beyond the final size (written before the transaction shrank again, e.g. after a cache spill) are not part of the image: the LTX encoder rejects them and CommitWAL exits fatally although a complete committed transaction was appended")
 	c.ExpectAll("pages/frame-offset", c.CallArgs(cw, func(in ssa.Instruction) bool {
 		return p.PlainCalls("internal.ReadFullAt")(in) && strings.Contains(c.argR(in, 2), "#0[")
 	}, 2), pat(bto+"#0["+pgnos+"]"), 1, "each page is read from the WAL at the offset recorded for it (the last frame of that page in the transaction)", "")
